@@ -38,6 +38,7 @@ static const char *mode;
 static int N, D;
 static bool is_asan;
 
+extern CMB_THREAD_LOCAL struct cmi_coroutine *coroutine_main;
 static struct cmi_coroutine co[MAXC + 1]; /* 1..N; 0 unused (main is the library's) */
 static void *ctxval[MAXC + 1];
 
@@ -374,6 +375,13 @@ static void run_api(void)
         memset(&co[k], 0, sizeof co[k]);
         ctxval[k] = (void *)(uintptr_t)(0xC7000 + (uintptr_t)k);
         cmi_coroutine_initialize(&co[k], (cmi_coroutine_func *)vx_entry_stub, ctxval[k], NULL, STACKSZ);
+    }
+    /* every execution is a fresh program: the library's record of the main coroutine starts as it is created
+     * (nobody has transferred into main yet), whatever earlier executions in this worker left in it */
+    if (coroutine_main != NULL) {
+        coroutine_main->caller = NULL;
+        coroutine_main->parent = NULL;
+        coroutine_main->exit_value = NULL;
     }
     interpreter(0);
     /* back in main for good: exit values of finished coroutines */
